@@ -92,6 +92,7 @@ static ares_bool_t ares_slist_coin_flip(ares_slist_t *list)
    * to be excessive in caching ourselves.  Prefer to require less memory per
    * skiplist */
   if (list->rand_bits == 0) {
+    ARES_VERIF_RAND_PURPOSE(ARES_VERIF_RAND_SLIST);
     ares_rand_bytes(list->rand_state, list->rand_data, sizeof(list->rand_data));
     list->rand_bits = total_bits;
   }
